@@ -93,6 +93,10 @@ class Variable:
             self.kind = "categoric"
         else:
             raise ValueError(f"Variable is of an unrecognized type ({type(x)}).")
+        if self.reference is not None and self.kind == "numeric":
+            raise ValueError(
+                f"Subset notation '{self.name}[{self.reference}]' needs a categorical variable."
+            )
         self._intermediate_data = x
 
     def set_data(self, spans_intercept=None):
